@@ -174,7 +174,7 @@ func snap(env *gen.Env) snapshot {
 // judgeCall compares what one log call did with the model.
 func judgeCall(env *gen.Env, root *gen.Comp, l zapcore.Level, msg string, before snapshot, marshals int) string {
 	leaves, hooks := map[int]bool{}, map[int]int{}
-	root.Deliver(l, leaves, hooks)
+	root.DeliverCall(l, msg, leaves, hooks)
 	for _, lf := range env.Leaves {
 		got := lf.Got(msg)
 		want := 0
@@ -279,7 +279,7 @@ func reportedLevels(lg *zap.Logger, core zapcore.Core, root *gen.Comp) string {
 
 // Run is the C05 monitor.
 func Run(r *ev.Run) {
-	r.Rule = "case i = f(seed,i): a core composition (observer/JSON/console leaves with static, atomic and arbitrary non-monotone enablers under tee, increase-level, hooks, lazy, with, pass-through sampler; depth <= 4 quick / 6 thorough) built together with its delivery model; every one of the 256 levels is logged through Logger.Log plus a rotating second front end; Enabled/Level/LevelOf/V/slog Enabled compared with delivery; then 3 rounds of AtomicLevel changes with re-judging; distinct = distinct composition strings; non-trivial = has a wrapper"
+	r.Rule = "case i = f(seed,i): a core composition (observer/JSON/console leaves with static, atomic and arbitrary non-monotone enablers under tee, increase-level, hooks, lazy, with, pass-through and really dropping samplers (each message is then logged twice); depth <= 4 quick / 6 thorough) built together with its delivery model; every one of the 256 levels is logged through Logger.Log plus a rotating second front end; Enabled/Level/LevelOf/V/slog Enabled compared with delivery; then 3 rounds of AtomicLevel changes with re-judging; distinct = distinct composition strings; non-trivial = has a wrapper"
 	n := r.N(1500, 60000)
 	fes := frontEnds()
 	for i := 0; i < n; i++ {
@@ -319,6 +319,10 @@ func Run(r *ev.Run) {
 		if g.R.P(1, 3) {
 			lg = lg.Named("n").With(zap.Int("w", 1))
 		}
+		hasDrop := shapes["dropsampler"] > 0
+		if hasDrop {
+			r.Count("compositions_with_dropping_sampler", 1)
+		}
 		violated := false
 		fail := func(msg string) {
 			violated = true
@@ -350,6 +354,25 @@ func Run(r *ev.Run) {
 					if m := judgeCall(env, root, l, msg, before, cnt); m != "" {
 						fail(fmt.Sprintf("level %d via %s (%s): %s", lv, fe.name, tag, m))
 						return
+					}
+					// the same message again: a dropping sampler in the composition now declines it
+					// although its level is enabled (hooks above it must stay silent)
+					if hasDrop && lv >= -1 && lv <= 5 {
+						for _, lf := range env.Leaves {
+							lf.Reset()
+						}
+						before = snap(env)
+						cnt = 0
+						if p := ev.Guard(func() { ok = fe.emit(lg, core, l, msg, countObj{&cnt}) }); p != "" {
+							fail(fmt.Sprintf("front end %s at level %d panicked on a repeated message: %s", fe.name, lv, p))
+							return
+						}
+						r.Count("repeated_entries_judged", 1)
+						// marshaler calls are not judged here: a repeat may be refused by a sampler after the level pre-check
+						if m := judgeCall(env, root, l, msg, before, 0); m != "" {
+							fail(fmt.Sprintf("level %d via %s (%s), same message repeated: %s", lv, fe.name, tag, m))
+							return
+						}
 					}
 				}
 			}
